@@ -6,6 +6,8 @@ import Kitoken.Spec.Pieces
 import Kitoken.Spec.UnigramCheck
 import Kitoken.Spec.Split
 import Kitoken.Spec.CharsMap
+import Kitoken.Spec.Normalize
+import Kitoken.Spec.Compose
 namespace Kitoken.Driver
 
 open Kitoken Std
@@ -286,7 +288,40 @@ def handleSplit (args : List String) (impl : List String) : String :=
     | _, _ => "BAD-OP"
   | _ => "BAD-OP"
 
-def handleNorm (args : List String) (_impl : List String) : String :=
+/-- C11 verdict for a single built-in step on valid UTF-8: the character-level specification. -/
+def normStepSpec (n : Normalization) (pos : Position) (cs : List Char) : Option (List Char) :=
+  match n with
+  | .append s => some (cs ++ Utf8.chars s)
+  | .prepend s => some (Utf8.chars s ++ cs)
+  | .extend c l r pad => some (Spec.extendSpec c l r pad cs)
+  | .strip c l r => some (Spec.stripSpec c l r cs)
+  | .collapse c => some (collapseChars c false cs)
+  | .replace (.char c) rep => some (replaceAll [c] (Utf8.chars rep) cs)
+  | .replace (.string s) rep => some (replaceAll (Utf8.chars s) (Utf8.chars rep) cs)
+  | .nmt => some (Spec.nmtSpec cs)
+  | .conditional cond inner =>
+    if (match cond with | .startOfText => pos.start == 0 | .endOfText => pos.toEnd)
+    then normStepSpec inner pos cs else some cs
+  | _ => none
+
+def normVerdict (steps : List Normalization) (pos : Position) (t : Bytes) (impl : List String) : String :=
+  match impl with
+  | ["OK", out] =>
+    match parseHex out with
+    | none => "NO-VERDICT"
+    | some out =>
+      if !validUtf8 out then "FAILS invalid-utf8"
+      else if t.isEmpty then (if out.isEmpty then "HOLDS" else "FAILS empty-text-changed")
+      else match steps with
+        | [] => if out == t then "HOLDS" else "FAILS no-steps-changed"
+        | [n] =>
+          (match normStepSpec n pos (Utf8.chars t) with
+            | some cs => if Utf8.encodeChars cs == out then "HOLDS" else "FAILS step-effect"
+            | none => "HOLDS-NA")
+        | _ => "HOLDS-NA"
+  | _ => "FAILS not-total"
+
+def handleNorm (args : List String) (impl : List String) : String :=
   let (args, tab) := splitOracle args
   match args with
   | [steps, start, toEnd, text] =>
@@ -295,7 +330,7 @@ def handleNorm (args : List String) (_impl : List String) : String :=
       let model := match configNormalize (mkExt tab).norm steps ⟨start, toEnd⟩ t with
         | none => "MISS normalize"
         | some r => showResBytes r
-      s!"{model} || HOLDS-NA"
+      s!"{model} || {normVerdict steps ⟨start, toEnd⟩ t impl}"
     | _, _, _, _ => "BAD-OP"
   | _ => "BAD-OP"
 
@@ -358,6 +393,157 @@ def handleCmapLoad (args : List String) (impl : List String) : String :=
         | _ => "NO-VERDICT"
       s!"{model} || {verdict}"
     | none => "BAD-OP"
+  | _ => "BAD-OP"
+
+end Kitoken.Driver
+
+namespace Kitoken.Driver
+open Kitoken Std
+
+/-- Bytes an id stands for when spelling text back: vocabulary bytes, or the special token's text. -/
+def spellId (tk : Tokenizer Float) (t : Id) : Option Bytes :=
+  match tk.dec.vocab t with
+  | some b => some b
+  | none => (tk.dec.special t).map (·.1)
+
+def encoderUnknown (tk : Tokenizer Float) : Option Id :=
+  match tk.encoder with
+  | .bpe c => c.unknown
+  | .unigram c => c.unknown
+  | .wordpiece c => c.unknown
+
+def encoderFallback (tk : Tokenizer Float) : List Fallback :=
+  match tk.encoder with
+  | .bpe c => c.fallback
+  | .unigram c => c.fallback
+  | .wordpiece c => c.fallback
+
+/-- What the encoder input must spell (C02): ordinary parts' texts (plus the end-of-word suffix for BPE)
+    and special parts' texts, in order. -/
+def expectedSpelling (tk : Tokenizer Float) (ps : List TextPart) : Bytes :=
+  let eow : Bytes := match tk.encoder with | .bpe c => c.eow.getD [] | _ => []
+  ps.flatMap fun p => if p.special != INVALID then p.text else p.text ++ eow
+
+/-- Spelling of the ids; WordPiece continuation entries lose their prefix, and words are not separated. -/
+def spelledBy (tk : Tokenizer Float) (ids : List Id) : Option Bytes :=
+  let pre := tk.dec.subwordPrefix
+  ids.foldl (fun acc t =>
+    match acc, spellId tk t with
+    | some a, some b =>
+      let b := if (tk.dec.vocab t).isSome && !pre.isEmpty && startsWith b pre then b.drop pre.length else b
+      some (a ++ b)
+    | _, _ => none) (some [])
+
+/-- Piece-level specification by encoder kind (what one ordinary part yields by itself). -/
+def pieceSpecOf (tk : Tokenizer Float) (text : Bytes) : Res (List Id) :=
+  match tk.encoder with
+  | .bpe c => Spec.bpePieceSpec c text
+  | .unigram c =>
+    (match Unigram.encodeUnigram c c.fallback text [] [] (Utf8.charStarts text) with
+      | .ok (_, ids) => .ok ids | .err e => .err e | .panic p => .panic p)
+  | .wordpiece c => WordPiece.encodeWord c text
+
+def padIds (tk : Tokenizer Float) : List Id :=
+  tk.config.processing.filterMap fun | .pad id _ _ _ => some id | _ => none
+
+/-- Verdicts of the pipeline-level properties on what the implementation returned. `which` selects
+    the property: "2" spelling, "7" specials, "9" independence, "18" no crash. -/
+def encVerdict (which : String) (tk : Tokenizer Float) (ext : Ext) (t : Bytes) (s : Bool) (impl : List String) : String :=
+  match parseImplIds impl with
+  | none => "NO-VERDICT"
+  | some (.panic _) => "FAILS panic"
+  | some (.err _) => if which == "18" then "HOLDS" else "HOLDS-NA"
+  | some (.ok ids) =>
+    if which == "18" then "HOLDS" else
+    match tk.parts ext t s with
+    | .res (.ok ps) =>
+      if which == "2" then
+        -- no fallback arm that hides text: no unknown id in the output and no Skip/Bytes at the head
+        let fbHead := (encoderFallback tk).head?
+        let unk := encoderUnknown tk
+        if !tk.config.processing.isEmpty then "HOLDS-NA"
+        else if (match unk with | some u => ids.contains u | none => false) then "HOLDS-NA"
+        else if fbHead == some .skip || fbHead == some .bytes then
+          -- still judged when nothing was skipped / byte-encoded: spelling equality is sufficient evidence
+          (match spelledBy tk ids with
+            | some b => if b == expectedSpelling tk ps then "HOLDS" else "HOLDS-NA"
+            | none => "FAILS unknown-id-in-output")
+        else
+          (match spelledBy tk ids with
+            | some b => if b == expectedSpelling tk ps then "HOLDS" else "FAILS spelling"
+            | none => "FAILS unknown-id-in-output")
+      else if which == "7" then
+        let isVocab (i : Id) : Bool := (tk.dec.vocab i).isSome
+        let controlIds := (tk.specials.filter (·.kind == .control)).map (·.id)
+        let pads := padIds tk
+        let leaked := ids.filter fun i => controlIds.contains i && !isVocab i && encoderUnknown tk != some i && !pads.contains i
+        if !s && !leaked.isEmpty then "FAILS control-id-with-specials-off"
+        else
+          -- the recognized specials, in order, must appear as exactly their ids (atomic)
+          let expected := (ps.filter (·.special != INVALID)).map (·.special)
+          let specialIds := tk.specials.map (·.id)
+          let got := ids.filter fun i => specialIds.contains i && !isVocab i && encoderUnknown tk != some i && !pads.contains i
+          if !tk.config.processing.isEmpty then "HOLDS-NA"
+          else if expected.filter (fun i => !isVocab i && encoderUnknown tk != some i) == got then "HOLDS" else "FAILS specials-sequence"
+      else if which == "9" then
+        let spec := Spec.seqRes (ps.map (Spec.perPart (pieceSpecOf tk)))
+        (match spec with
+          | .ok enc =>
+            (match configProcess tk.config.processing enc with
+              | .ok out => if out == ids then "HOLDS" else "FAILS not-composition"
+              | _ => "FAILS process")
+          | _ => "FAILS piece-error-but-ok")
+      else "HOLDS-NA"
+    | _ => "HOLDS-NA"
+
+def handleEncV (which : String) (st : State) (args : List String) (impl : List String) : String :=
+  let (args, tab) := splitOracle args
+  match args with
+  | [slot, s, text] =>
+    match slot.toNat?.bind (st.toks[·]?), parseBool s, parseHex text with
+    | some tk, some s, some t =>
+      let ext := mkExt tab
+      s!"{showOutIds (tk.encode ext t s)} || {encVerdict which tk ext t s impl}"
+    | _, _, _ => "BAD-OP"
+  | _ => "BAD-OP"
+
+/-- `RT <slot> <s> <text> :: OK <ids> <decoded>`: encode then decode with the same flag (C01). -/
+def handleRoundTrip (st : State) (args : List String) (impl : List String) : String :=
+  let (args, tab) := splitOracle args
+  match args with
+  | [slot, s, text] =>
+    match slot.toNat?.bind (st.toks[·]?), parseBool s, parseHex text with
+    | some tk, some s, some t =>
+      let ext := mkExt tab
+      let model :=
+        match tk.encode ext t s with
+        | .res (.ok ids) =>
+          (match tk.decode ext ids s with
+            | .res (.ok b) => s!"OK {showIds ids} {toHex b}"
+            | .res (.err e) => showErr e
+            | .res (.panic _) => "PANIC"
+            | .miss w => s!"MISS {w}")
+        | .res (.err e) => showErr e
+        | .res (.panic _) => "PANIC"
+        | .miss w => s!"MISS {w}"
+      -- expected: the concatenation of the first-pass parts (normalized segments and special texts,
+      -- control tokens only when rendered), passed through the decode clean-up
+      let verdict :=
+        match impl with
+        | ["OK", _, dec] =>
+          (match parseHex dec, tk.stageA ext t s with
+            | some dec, .res (.ok ps) =>
+              let raw : Bytes := ps.flatMap fun (p : TextPart) => p.text
+              (match configDecode ext.dec tk.config.decoding raw with
+                | some (.ok expect) =>
+                  if dec == expect then (if tk.config.normalization.isEmpty && dec != t then "FAILS identity-roundtrip" else "HOLDS")
+                  else "FAILS roundtrip"
+                | _ => "HOLDS-NA")
+            | _, _ => "NO-VERDICT")
+        | ["PANIC"] => "FAILS panic"
+        | _ => "FAILS not-total"
+      s!"{model} || {verdict}"
+    | _, _, _ => "BAD-OP"
   | _ => "BAD-OP"
 
 end Kitoken.Driver
